@@ -33,7 +33,9 @@ META = dict(
         "object, the constants object's values with one); each path is compared with the defining formula evaluated with its own constants",
         "quantities mode uses chempy.units.Backend() (documented as the unit-safe backend); trees are evaluated with quantities only when the "
         "reference dimension algebra says they are dimensionally consistent with literal exponents",
-        "numpy mode uses an array of all temperatures except for trees containing a piecewise expression (python comparisons: numpy scalars)",
+        "numpy mode uses an array of all temperatures except for trees containing a piecewise expression (python comparisons) or an Eyring/EyringHS "
+        "leaf (their default standard-state concentration is a quantities object, 1 M, even in unit-less evaluation, and quantities refuses "
+        "array-valued Quantity exponents): those use numpy scalars",
         "trees leaving the finite real range (|v|>1e150, negative base with non-integer exponent, log of a non-positive number, division by zero) are skipped and counted",
         "linearised fits (fit_arrhenius_equation/fit_eyring_equation) are not part of the property statement and are not checked",
     ],
@@ -42,7 +44,7 @@ META = dict(
 )
 
 TL = (200.0, 298.15, 1000.0, 2000.0)  # temperature lattice of the P and X layers
-TT = (200.0, 250.0, 298.15, 500.0, 1000.0, 1500.0, 2000.0)  # tree layer: every breakpoint of the piecewise leaf and every interior
+TT_PW = (200.0, 250.0, 298.15, 500.0, 1000.0, 1500.0, 2000.0)  # trees containing the piecewise leaf: every breakpoint and every interior
 NUMS = (0, 1, 2, 2.5, -1)
 X_ENV = dict(x=1.5, density=0.998, doserate=0.15)
 REL_FLOOR = 1e-13  # the propagated bound is used as is; this floor (relative) covers decimal<->binary conversion inside sympy/quantities
@@ -53,7 +55,7 @@ def bounds(tier):
         tree_depth=3 if tier == "thorough" else 2,
         tree_depth3_partners="all 12 leaves and 5 numbers, both sides" if tier == "thorough" else "quick: depth-3 = unary(depth-2) and (depth-2 op arr), (arr op depth-2)",
         leaves=list(LEAF_NAMES), numbers=[repr(n) for n in NUMS], operators=list(RX.OPS) + ["neg", "Log10", "Exp", "reflected forms"],
-        T_tree=list(TT), T_classes=list(TL), modes=["math", "numpy", "sympy-then-substitute", "quantities(Backend())"],
+        T_tree=list(TL), T_tree_with_piecewise=list(TT_PW), T_classes=list(TL), modes=["math", "numpy", "sympy-then-substitute", "quantities(Backend())"],
         slack=RX.SLACK, rel_floor=REL_FLOOR,
     )
 
@@ -282,6 +284,7 @@ def _check_tree(res, t, modes=("math", "numpy", "sympy", "units")):
     leaves = RX.tree_leaves(t)
     ts = RX.tree_str(t)
     refs = []
+    TT = TT_PW if "pw" in leaves else TL  # every breakpoint and interior of the piecewise leaf / the class-layer lattice
     for T in TT:
         try:
             refs.append(RX.tree_eval(t, lambda n: _leaf_value(n, T)))
@@ -322,7 +325,7 @@ def _check_tree(res, t, modes=("math", "numpy", "sympy", "units")):
                     except Exception as ex:
                         obs[i] = _exc_tag(ex)
             elif mode == "numpy":
-                if "pw" in leaves:
+                if "pw" in leaves or "eyr" in leaves or "eyrhs" in leaves:
                     for i in inrange:
                         try:
                             obs[i] = _tofloat(e(_tree_vars(mode, TT[i]), backend=np, reaction=rx))
@@ -383,7 +386,9 @@ def _check_tree(res, t, modes=("math", "numpy", "sympy", "units")):
 def _tree_key(t, mode, cl):
     """class of a tree failure: the outermost construct + (for exceptions) the exception; one defect -> few keys"""
     if cl.startswith("EXC AttributeError:"):
-        return "C16|tree|%s|%s" % (mode, cl)
+        # a backend lacking the function a unary expression class needs: the same class of failure as in the class layer
+        owner = {"log10": "Log10", "exp": "Exp"}.get(cl.split(":")[1], "tree")
+        return "C16|%s|%s|%s" % (owner, mode, cl)
     k = t[0]
     if k == "bin":
         refl = "reflected " if t[2][0] == "num" else ""
